@@ -25,7 +25,7 @@ ASSUMPTIONS = [
     'hand argument: counter <= len/2 implies (counter == len => counter == 0), so the trigger false edge restores both check_rep clauses',
 ]
 
-FLOORS = {'R15.1': 5, 'R15.2': 1, 'R15.3': 2, 'R15.4': 2, 'R15.5': 2, 'R15.6': 3, 'R15.7': 11}
+FLOORS = {'R15.1': 5, 'R15.2': 1, 'R15.3': 2, 'R15.4': 2, 'R15.5': 2, 'R15.6': 3, 'R15.7': 11, 'R15.8': 2}
 
 CLEAN_CONTAINER_USES = ('PushTruncateContainer::push', 'PushTruncateContainer::slice_mut')
 DIRTY_CONTAINER_USES = ('PushTruncateContainer::pop', 'PushTruncateContainer::truncate')
@@ -383,4 +383,20 @@ def r15_7(cx):
     cx.check(n >= 10, 'impls-found', None, 'sliding_deque/src/sliding_deque.rs', '%d container methods checked' % n, fail_detail='only %d container methods found' % n)
 
 
-RULES = [('R15.1', r15_1), ('R15.2', r15_2), ('R15.3', r15_3), ('R15.4', r15_4), ('R15.5', r15_5), ('R15.6', r15_6), ('R15.7', r15_7)]
+def r15_8(cx):
+    """pop_back removes what it returns: every Some it returns follows a pop of the container, in every build profile"""
+    prog = cx.prog
+    f = prog.fn('sliding_deque::sliding_deque::SlidingDeque::pop_back')
+    pops = [c for c in f.calls() if c.callee.endswith('PushTruncateContainer::pop')]
+    somes = [pos for pos, st in f.statements() if st['k'] == 'assign' and st['pl']['l'] == 0 and st['rv']['k'] == 'agg' and st['rv']['variant'] == 'Some']
+    ok = bool(pops) and bool(somes) and all(any(f.pos_dominates(p.pos, s_) for p in pops) for s_ in somes)
+    cx.check(ok, 'pop_back-removes', f, pops[0].loc() if pops else None, 'Some(item) is returned only after container.pop()',
+             fail_detail='pop_back returns an item without removing it from the container in this build (%d pop call(s), %d Some site(s))' % (len(pops), len(somes)))
+    g = prog.fn('sliding_deque::sliding_deque::SlidingDeque::pop_front')
+    st = [pos for pos, pl, rv in g.stores() if pl['p'] and pl['p'][-1].get('n') == 'consumed_prefix']
+    somes = [pos for pos, s_ in g.statements() if s_['k'] == 'assign' and s_['pl']['l'] == 0 and s_['rv']['k'] == 'agg' and s_['rv']['variant'] == 'Some']
+    okf = bool(st) and bool(somes) and all(any(g.pos_dominates(a, b_) for a in st) for b_ in somes)
+    cx.check(okf, 'pop_front-advances', g, None, 'Some(item) is returned only after the consumed prefix moved', fail_detail='pop_front returns an item without consuming it in this build')
+
+
+RULES = [('R15.1', r15_1), ('R15.2', r15_2), ('R15.3', r15_3), ('R15.4', r15_4), ('R15.5', r15_5), ('R15.6', r15_6), ('R15.7', r15_7), ('R15.8', r15_8)]
